@@ -87,7 +87,7 @@ def lifecycle_set_follows(ck, C):
             ok_e, err_e, _ = T.result_split(dunreg, t.bb)
             starts = [x for _, x in ok_e] if ok_e else [t.to]
             flag_false = []
-            for sw in T.switches_on_expr(dunreg, lambda e: e[0] == "place" and "needs_additional_lifecycle_events" in e[1]):
+            for sw in T.switches_on_expr(dunreg, lambda e: (e[0] == "place" and "needs_additional_lifecycle_events" in e[1]) or (e[0] == "const" and "NEEDS_EXTRA_LIFECYCLE_EVENTS" in str(e[1]))):
                 flag_false += T.edges_of_value(dunreg, sw, False)
             bad = T.t2_all_exits(dunreg, starts, U, removed_edges=flag_false)
             ck.verdict(bad is None, C, "T2-all-exits", dunreg, "unregister-always-drops-entry", "every path on which the dispatcher could be borrowed removes the token from the set (unless the source never opted in), including the path on which the source's own unregister fails", "a path returns from unregister with the token still in the lifecycle set (the source's unregister failed before the set was updated): the callers empty the slot regardless and the next dispatch hits unreachable!()", site=dunreg.where(t.bb), path=path_descr(dunreg, bad) if bad else None)
@@ -187,7 +187,14 @@ def run(ck):
     if r1 is None or r2 is None:
         ck.anchor_missing("3", "T3-order", "hook loops")
         raise AnchorMissing("hook loops")
-    ck.verdict(b.dominates(r1[0], poll.bb), "3", "T3-must-precede", b, "before_sleep-region<poll", "the before_sleep loop dominates the poll", "the poll can be reached without going through the before_sleep loop", site=b.where(poll.bb))
+    # (.. except when there is nothing to iterate: the set of lifecycle sources was found empty)
+    empty_e = []
+    for c in T.calls(b, name="is_empty"):
+        if not b.is_cleanup(c.bb) and c.args and (T.path_has(b, c.args[0], ".values") or T.path_has(b, c.args[0], ".sources_with_additional_lifecycle_events")):
+            tr_, fa_ = T.bool_split(b, c.bb)
+            empty_e += tr_
+    dom_ok = b.dominates(r1[0], poll.bb) or (bool(empty_e) and poll.bb not in b.reachable([0], removed_blocks={r1[0]}, removed_edges=set(empty_e)))
+    ck.verdict(dom_ok, "3", "T3-must-precede", b, "before_sleep-region<poll", "the before_sleep loop dominates the poll", "the poll can be reached without going through the before_sleep loop", site=b.where(poll.bb))
     ck.verdict(b.dominates(poll.bb, r2[0]), "3", "T3-must-precede", b, "poll<before_handle_events-region", "the poll dominates the before_handle_events loop", "before_handle_events can run without a preceding poll", site=b.where(r2[0]))
     ck.verdict(poll.bb not in r1[1] and poll.bb not in r2[1] and not (r1[1] & r2[1]), "3", "T3-must-precede", b, "regions-disjoint", "the two hook loops and the poll are disjoint", "the hook loops overlap or contain the poll", site=b.where(poll.bb))
     # every path from the poll's success edge to the batch loop / a return enters the region
